@@ -64,6 +64,28 @@ static bool case_double_interrupt() {
     if (d_r != -1 || d_e != ECANCELED) { why = "the sleeper reported errno " + std::to_string(d_e) + " instead of the reason of the interrupt that cut it short (ECANCELED)"; return false; }
     return true;
 }
+// a thread marked by thread_shutdown() must not block past the documented short bound (10 ms), whatever it blocks in
+static volatile int s_phase = 0; static uint64_t s_plain_us, s_sem_us; static int s_plain_r, s_sem_r;
+static photon::semaphore* s_sem;
+static void* s_worker(void*) {
+    s_phase = 1;
+    while (s_phase != 2) photon::thread_yield();              // main marks us in between
+    uint64_t t0 = photon::__update_now(); s_plain_r = photon::thread_usleep(300 * 1000); s_plain_us = photon::__update_now() - t0;
+    t0 = photon::__update_now(); s_sem_r = s_sem->wait(1, 300 * 1000); s_sem_us = photon::__update_now() - t0;
+    s_phase = 3; return 0;
+}
+static int case_shutdown_bound() {      // 0 ok, 1 plain sleep uncapped, 2 wait-queue sleep uncapped
+    photon::vcpu_init(); photon::semaphore sem(0); s_sem = &sem; s_phase = 0;
+    auto th = photon::thread_create(&s_worker, nullptr);
+    while (s_phase != 1) photon::thread_yield();
+    photon::thread_shutdown(th, true); s_phase = 2;
+    while (s_phase != 3) photon::thread_usleep(1000);
+    photon::vcpu_fini();
+    if (s_plain_us > 100 * 1000) { why = "thread_usleep(300 ms) of a thread marked by thread_shutdown() blocked " + std::to_string(s_plain_us) + " us"; return 1; }
+    if (s_sem_us > 100 * 1000) { why = "semaphore::wait(1, 300 ms) of a thread marked by thread_shutdown() blocked " + std::to_string(s_sem_us) + " us (returned " + std::to_string(s_sem_r) + "): the 10 ms cap is applied by thread_usleep() only, not by the sleep every wait queue uses"; return 2; }
+    return 0;
+}
+static bool is_known(const char* cls) { const char* k = getenv("VERIF_KNOWN"); return k && strstr(k, cls); }
 static bool case_yield_then_sleep() {
     y_phase = 0;
     photon::vcpu_init();
@@ -85,6 +107,7 @@ static long jnum(const std::string& j, const char* key) { auto p = j.find(std::s
 int main(int argc, char** argv) {
     if (argc >= 3 && !strcmp(argv[1], "--replay")) {
         std::ifstream f(argv[2]); std::stringstream ss; ss << f.rdbuf(); std::string j = ss.str();
+        if (j.find("shutdown") != std::string::npos || j.find("usleep/waitq") != std::string::npos) { int sb = case_shutdown_bound(); printf("%s %s\n", sb ? "REPRODUCED" : "NOT-REPRODUCED", why.c_str()); return 0; }
         if (j.find("double_interrupt") != std::string::npos) { bool ok = case_double_interrupt(); printf("%s %s\n", ok ? "NOT-REPRODUCED" : "REPRODUCED", why.c_str()); return 0; }
         if (j.find("yield") != std::string::npos) { bool ok = case_yield_then_sleep(); printf("%s %s\n", ok ? "NOT-REPRODUCED" : "REPRODUCED", why.c_str()); return 0; }
         auto ts = jarr(j, "in_ts"); int n = (int)jnum(j, "in_n"); int op = j.find("push_n") != std::string::npos ? 0 : (j.find("pop_front_n") != std::string::npos ? 1 : 2);
@@ -95,6 +118,10 @@ int main(int argc, char** argv) {
     }
     uint64_t N = argc > 1 ? strtoull(argv[1], 0, 10) : 100000, cases = 0;
     set_log_output_level(ALOG_FATAL);
+    { ++cases; int sb = case_shutdown_bound();
+      if (sb == 1) { printf("CEX shutdown {\"kind\": \"shutdown_plain\", \"why\": \"%s\"}\n", why.c_str()); return 3; }
+      if (sb == 2) { if (is_known("waitq_shutdown_uncapped")) printf("KNOWN waitq_shutdown_uncapped {\"kind\": \"shutdown_waitq\", \"why\": \"%s\"}\n", why.c_str());
+                     else { printf("CEX waitq_shutdown_uncapped {\"kind\": \"shutdown_waitq\", \"why\": \"%s\"}\n", why.c_str()); return 3; } } }
     ++cases; if (!case_double_interrupt()) { printf("CEX interrupt {\"kind\": \"double_interrupt\", \"why\": \"%s\"}\n", why.c_str()); return 3; }
     ++cases; if (!case_yield_then_sleep()) { printf("CEX yield {\"kind\": \"yield_then_sleep\", \"why\": \"%s\"}\n", why.c_str()); return 3; }
     const char* sd = getenv("VERIF_SEED"); rs_ = 0x9E3779B97F4A7C15ull ^ (sd ? strtoull(sd, 0, 10) * 0x100000001B3ull : 1);
